@@ -48,13 +48,15 @@ Definition guard (s : st) (o : op) : bool :=
   match o with
   | ONew n => match n_id n, n_children n, n_parents n, n_comp n with None, [], [], [] => true | _, _, _, _ => false end
   | OAddNode o i =>
-      Nat.ltb o (s_nn s) && negb (in_graph s o)
-      && (match n_children (s_nh s o), n_parents (s_nh s o), n_comp (s_nh s o) with [], [], [] => true | _, _, _ => false end)
-      && (match n_asset (s_nh s o) with
-          | Some _ => negb (dhas seqb (g_name2node (s_g s)) (full_name (s_nh s o)))
-          | None => let i' := match i with Some i => i | None => g_next_node (s_g s) end in
-                    negb (dhas seqb (g_name2node (s_g s)) (full_name (set_id (s_nh s o) (Some i'))))
-          end)
+      (* a node that is already in the graph may be added again: add_node rejects it (its id is in use) *)
+      Nat.ltb o (s_nn s) &&
+      (in_graph s o ||
+       (match n_children (s_nh s o), n_parents (s_nh s o), n_comp (s_nh s o) with [], [], [] => true | _, _, _ => false end)
+       && (match n_asset (s_nh s o) with
+           | Some _ => negb (dhas seqb (g_name2node (s_g s)) (full_name (s_nh s o)))
+           | None => let i' := match i with Some i => i | None => g_next_node (s_g s) end in
+                     negb (dhas seqb (g_name2node (s_g s)) (full_name (set_id (s_nh s o) (Some i'))))
+           end))
   | ORemoveNode o => in_graph s o
   | OLink p c => in_graph s p && in_graph s c
   | ONewAtt _ => true
